@@ -238,6 +238,16 @@ def explore(ctx, res, replay=None):
                         pats.append(['LOOP', s1, sep, s2] + tail)
         inst = {'<ID>': 'a', '<INT>': '3', '<V>': 'b', '<ARGS>': 'a , 4', '<P>': 'c := 1'}
         inst2 = {'<ID>': 'a', '<INT>': '3', '<V>': 'RUN g WITH b END', '<ARGS>': 'a , 4 , b', '<P>': 'c := 1 ; d := 2 ; STOP'}
+        # several rejected macros in a row, at the start, at the end, between accepted ones: each must be reported at its own
+        # definition and none may be applied
+        bad = ['DEFINE TWICE <P> AS $0 ; $0 END DEFINE', 'DEFINE <P> BUT FIRST <P> AS $1 ; $0 END DEFINE', 'DEFINE ALL <ARGS> AS RUN f WITH $0 END END DEFINE',
+               'DEFINE <P> ; AGAIN AS $0 ; $0 END DEFINE', 'DEFINE <ID> [ <ARGS> , <ARGS> ] AS RUN $0 WITH $1 END END DEFINE']
+        good = ['DEFINE CLEAR <ID> AS $0 := 0 END DEFINE', 'DEFINE GOOD AS fine END DEFINE']
+        uses = 'CLEAR x0 ; TWICE x0 := 2 ; GOOD ; a := 1 BUT FIRST b := 2 ; ALL 1 , 2 ; c := 3 ; AGAIN ; g [ 1 , 2 , 3 ]'
+        for combo in ([0, 1], [1, 0], [0, 1, 2], [2, 3, 4], [0, 1, 2, 3, 4], [3, 0], [4, 2, 1]):
+            run = [bad[k] for k in combo]
+            for layout in (run + good, good + run, [good[0]] + run + [good[1]], run[:1] + [good[0]] + run[1:] + [good[1]]):
+                add('rejected_run', layout, uses, [4])
         for p in pats:
             use = ' '.join(inst.get(s, s) for s in p)
             use2 = ' '.join(inst2.get(s, s) for s in p)
@@ -336,7 +346,23 @@ def explore(ctx, res, replay=None):
             res.nontrivial.add((tuple(defs), stream))
         non_lr = [e for e in ap[budgets[0]][1] if e.endswith('Mmacro_non_lr')] if budgets else []
         # ---------------- C12 ----------------
-        if pid == 'C12':
+        if pid == 'C12' and kind == 'rejected_run':
+            # every definition that is one of the known non-deterministic patterns is reported exactly once, at its own line,
+            # and is never applied; the deterministic ones beside them are applied
+            t4 = [vlib.unhex_s(t[3]) for t in ap[4][0]]
+            want = sorted('7@6d:%d[' % (k + 1) for k, d in enumerate(defs) if not d.startswith(('DEFINE CLEAR', 'DEFINE GOOD')))
+            got = sorted(e[:e.index('[') + 1] for e in non_lr)
+            if got != want:
+                res.violations.append(dict(case, what='report', detail='non-linear macros must be reported once each at lines %s; reported: %s' % (
+                    [w[5:-1] for w in want], non_lr)))
+            for word in ('TWICE', 'BUT', 'ALL', 'AGAIN', '['):
+                if word not in t4:
+                    res.violations.append(dict(case, what='applied', detail='a rejected macro was applied (%s disappeared from the stream)' % word))
+                    break
+            if 'fine' not in t4 or 'CLEAR' in t4:
+                res.violations.append(dict(case, what='others', detail='a deterministic macro beside rejected ones was not applied'))
+            res.count('rejected_run')
+        elif pid == 'C12':
             pat = defs[0].split()[1:-4]
             t4 = flat(ap[4][0])
             hit = any(x == (1, vlib.hexs('hit')) for x in t4)
